@@ -1789,7 +1789,7 @@ class OpticalImage(Image):
         self.color_space = kwargs.get("color_space", "RGB").upper()
         """Color space of the trichromatic data space."""
 
-        if self.color_space not in ["RGB", "BGR", "HSV"]:
+        if self.color_space not in ["RGB", "BGR", "HSV", "HLS", "LAB"]:
             raise NotImplementedError
 
         if "color_space" not in kwargs:
